@@ -127,7 +127,9 @@ class ExprMixin:
                         nv = self.eval(nxt, fr)
                     finally:
                         self.pure -= 1
-                        del self.pc[len(saved[0]):]
+                        # drop the guard only: definitions of fresh symbols made while
+                        # evaluating the operand stay (conservative extensions)
+                        del self.pc[len(saved[0])]
                     merged = self.ite_val(tc, nv, cur) if is_and else self.ite_val(tc, cur, nv)
                 except NeedFork:
                     merged = None
@@ -163,8 +165,18 @@ class ExprMixin:
         try:
             self.pure += 1
             try:
-                a = self.eval(node.body, fr)
-                b = self.eval(node.orelse, fr)
+                k = len(self.pc)
+                self.pc.append(c)
+                try:
+                    a = self.eval(node.body, fr)
+                finally:
+                    del self.pc[k]
+                k = len(self.pc)
+                self.pc.append(smt.Not(c))
+                try:
+                    b = self.eval(node.orelse, fr)
+                finally:
+                    del self.pc[k]
             finally:
                 self.pure -= 1
             return self.ite_val(c, a, b)
@@ -324,9 +336,14 @@ class ExprMixin:
             return smt.SetMember(self.term_of(x), c.dom)
         if isinstance(c, SSeqV):
             i = smt.fresh_bound('k', INT)
+            rng = smt.And(smt.Le(smt.IntC(0), i), smt.Lt(i, smt.SeqLen(c.t)))
+            ek = self.env.classes.get(c.ety[0], {}).get('eq_key')
+            if ek is not None:
+                # records compared by their user-defined __eq__, abstracted as a key
+                e = self.value_of_sort(smt.SeqNth(c.t, i), c.ety)
+                return smt.Exists([i], smt.And(rng, self.eq(self.get_attr(e, ek), self.get_attr(x, ek))))
             xt = self.term_of(x)
-            return smt.Exists([i], smt.And(smt.Le(smt.IntC(0), i), smt.Lt(i, smt.SeqLen(c.t)),
-                                           smt.Eq(smt.SeqNth(c.t, i), xt)))
+            return smt.Exists([i], smt.And(rng, smt.Eq(smt.SeqNth(c.t, i), xt)))
         if isinstance(c, (tuple, frozenset)):
             return smt.Or(*[self.eq(x, y) for y in c])
         if isinstance(c, dict):
@@ -409,6 +426,7 @@ class ExprMixin:
         rng = smt.And(smt.Le(smt.IntC(0), i), smt.Lt(i, n))
         self.assign(gen.target, self.value_of_sort(smt.SeqNth(sv.t, i), sv.ety), sub)
         self.pure += 1
+        self.qctx.append(([i], rng))
         try:
             conds = [self.truth(self.eval(c, sub)) for c in gen.ifs]
             if kind == 'dict':
@@ -421,6 +439,7 @@ class ExprMixin:
                               '(line %d)' % node.lineno)
         finally:
             self.pure -= 1
+            self.qctx.pop()
         flt = smt.And(*conds)
         if kind == 'list':
             if conds:
